@@ -100,7 +100,7 @@ Init ==
     /\ q = [r \in Reqs |-> <<>>]
     /\ todo = [t \in Tasks |-> <<>>]
     /\ kar = 0
-    /\ idle = [armed |-> TRUE, deadline |-> KATimeout]
+    /\ idle = [armed |-> TRUE, deadline |-> KATimeout, dead |-> FALSE]
     /\ now = 0
     /\ tr = "open"
     /\ wire = [r \in Reqs |-> NoWire]
@@ -122,7 +122,8 @@ ReusableAfter(r) ==      \* what C06 calls reusable, on design variables
     /\ RespDone(r) /\ wire[r].status = 200
     /\ ~plan[r].close /\ r < KAMax
 
-ArmIdle == idle' = [armed |-> TRUE, deadline |-> now + KATimeout]
+(* once the reader has finished nothing keeps the connection alive: the timer is stopped for good *)
+ArmIdle == idle' = IF idle.dead THEN idle ELSE [idle EXCEPT !.armed = TRUE, !.deadline = now + KATimeout]
 StopIdle == idle' = [idle EXCEPT !.armed = FALSE]
 
 (* A failed write: protocol_send catches it and calls protocol.handle(Closed()) *)
@@ -296,7 +297,9 @@ ReaderResume ==
 (* end of _read_data: protocol.handle(Closed()) *)
 ReaderClosing ==
     /\ rpc = "closing" /\ todo[RD] = <<>> /\ ~hdone
-    /\ todo' = [todo EXCEPT ![RD] = IF cur # 0 THEN <<<<"closeStream", 0>>>> ELSE <<>>]
+    \* ("idle_keeps_handler": the code before the repair of F07d left the idle task running)
+    /\ todo' = [todo EXCEPT ![RD] = (IF cur # 0 THEN <<<<"closeStream", 0>>>> ELSE <<>>)
+                                     \o (IF "idle_keeps_handler" \in Dev THEN <<>> ELSE <<<<"stopIdle", 0>>>>)]
     /\ rpc' = "exited"
     /\ UNCHANGED <<plan, csent, ceof, creset, tfail, term, net, hbuf, heof, their, our, keepalive, rput, canRead,
                    cur, sclosed, asgi, appst, q, kar, idle, now, tr, wire, errResp, hist, closedBy, hdone>>
@@ -306,6 +309,7 @@ ReaderClosing ==
 (*                put http.disconnect], then stream := None                                      *)
 (*  recycle       _maybe_recycle after _close_stream                                             *)
 (*  serverClose   TCPServer._close(): transport closed, idle timer stopped                       *)
+(*  stopIdle      the reader has finished: the idle timer is stopped and never restarted          *)
 MicroStep(t) ==
     /\ todo[t] # <<>> /\ ~hdone
     /\ LET op == Head(todo[t]) rest == Tail(todo[t]) IN
@@ -331,6 +335,10 @@ MicroStep(t) ==
           /\ cur' = 0
           /\ todo' = [todo EXCEPT ![t] = rest]
           /\ UNCHANGED <<q, sclosed, hist, their, our, keepalive, canRead, idle, tr, closedBy>>
+       \/ /\ op[1] = "stopIdle"        \* after _read_data: self._reading = False; idle_task.stop()
+          /\ idle' = [idle EXCEPT !.armed = FALSE, !.dead = TRUE]
+          /\ todo' = [todo EXCEPT ![t] = rest]
+          /\ UNCHANGED <<q, cur, sclosed, hist, their, our, keepalive, canRead, tr, closedBy>>
        \/ /\ op[1] = "recycle"
           /\ IF ~term /\ our = "DONE" /\ their = "DONE"
              THEN /\ our' = "IDLE" /\ their' = "IDLE"
